@@ -122,7 +122,7 @@ def _is_req(e):
 def size_facts(e, depth=0):
     """tiny abstract domain for the growth arithmetic (unsigned integers; REQ = num_pages*pagesize, LEN = current file length, D = REQ - LEN > 0 on
     the growth path).  Facts about the value of e:  'GE_REQ' e >= REQ;  'D' e == D;  'GE_D' e >= D;  ('FLOOR', m) e == floor(D / m);
-    ('CEILQ', m) e * m >= D;  ('CONST', c)."""
+    ('CEILQ', m) e * m >= D;  ('REM', m) e == D % m;  ('FLOORM', m) e == floor(D / m) * m;  ('CONST', c)."""
     if depth > 30:
         return set()
     k = e[0]
@@ -139,6 +139,12 @@ def size_facts(e, depth=0):
             return {'D', 'GE_D'}
         if op == 'Div' and 'D' in a and cb:
             return {('FLOOR', cb)}
+        if op == 'Rem' and 'D' in a and cb:
+            return {('REM', cb)}
+        if op == 'Sub' and 'D' in a:
+            for f in b:
+                if isinstance(f, tuple) and f[0] == 'REM':
+                    return {('FLOORM', f[1])}          # D - D % m  ==  floor(D / m) * m
         if op == 'Add':
             for x, y, cy in ((a, b, cb), (b, a, ca)):
                 for f in x:
@@ -146,6 +152,8 @@ def size_facts(e, depth=0):
                         out.add(('CEILQ', f[1]))
                     if isinstance(f, tuple) and f[0] == 'CEILQ':
                         out.add(f)
+                    if isinstance(f, tuple) and f[0] == 'FLOORM' and cy is not None and cy >= f[1]:
+                        out.add('GE_D')                # floor(D/m)*m + m > D
                 if 'GE_D' in x:
                     out.add('GE_D')
                 if 'GE_REQ' in x:
@@ -169,6 +177,9 @@ def size_facts(e, depth=0):
                         out.add('GE_D')
                 if 'GE_D' in x and cy is not None and cy >= 1:
                     out.add('GE_D')
+                for f in x:
+                    if isinstance(f, tuple) and f[0] == 'FLOOR' and cy is not None and cy == f[1]:
+                        out.add(('FLOORM', cy))
                 if 'GE_REQ' in x and cy is not None and cy >= 1:
                     out.add('GE_REQ')
             return out
@@ -603,6 +614,9 @@ def run(ctx, tier):
     results += thresholds(ctx)
     import c02
     results += c02.reload_rule(ctx, rule='C16.reload')
+    import c06, c09
+    results += c06.open_existing(ctx, rule='C16.open-existing')
+    results += c09.writer_reads_after_lock(ctx, rule='C16.snapshot-after-lock')
     return dict(
         results=results, stats=dict(ctx.stats),
         explanation=(
